@@ -12,6 +12,10 @@ def translate(ctx):
 
 
 SEQ_FIXED = [
+    ('pay = bonus + rate * hours\n', ['pay = bonus + _r_ * _h_\n', 'pay = __b__ + __r__ * __h__\n', 'pay = bonus + rate * hours\n', '_p_ = _b_ + _r_ * _h_\n',
+                                       'pay = ___ + ___ * ___\n']),
+    ('area = (a + b) * (top + bottom)\n', ['area = (a + b) * (_t_ + _b_)\n', 'area = (_x_ + _y_) * (_t_ + _b_)\n', 'area = (__p__ + __q__) * __r__\n',
+                                            'area = (a + b) * (top + bottom)\n']),
     # the same cached student tree searched several times, as an instructor script does; single-statement programs
     # have their root trimmed on every call
     ('print(total)\n', ['print(total)\n', 'print(___)\n', 'print(total)\n', '_f_(total)\n', 'print(total)\n']),
@@ -47,7 +51,10 @@ def must_match(case, pi):
 def correspondence(ctx):
     rng = ctx.rng
     n = 60 if ctx.tier == 'quick' else 700
-    cases = [{'program': p, 'patterns': ps, 'meta': [('self' if q == p else 'fixed', None) for q in ps],
+    must = ('pay = bonus + rate * hours\n', 'area = (a + b) * (top + bottom)\n')   # every pattern listed for these is derived from them
+    cases = [{'program': p, 'patterns': ps,
+              'meta': [('self' if q == p else ('derived' if p in must else 'fixed'), {'names': {}, 'exps': {}, 'steps': ['fixed-derivation']} if p in must else None)
+                       for q in ps],
               'perturb': {str(k): list(range(0, 40, 1 + k)) for k in range(len(ps) - 1)} if j % 2 else {}}
              for j, (p, ps) in enumerate(SEQ_FIXED)]
     for k in range(n):
@@ -95,8 +102,20 @@ def correspondence(ctx):
             for pi in range(len(pats) - 1):
                 if rng.random() < 0.5:
                     perturb[str(pi)] = [rng.randrange(400) for _ in range(rng.randrange(1, 4))]
-        cases.append({'program': prog, 'patterns': pats, 'meta': meta, 'perturb': perturb})
+        # explicit programs on the same report: the program, another one, an invalid text, the first again ...
+        explicit = []
+        if rng.random() < 0.5:
+            other = caitgen.similar_program(rng) if rng.random() < 0.5 else pygen.Gen(rng, max_depth=2, full=False).program(nstmts=2)
+            try:
+                op_, _ = caitgen.derive(rng, other)
+            except caitgen.Refuse:
+                op_ = other
+            dp = pats[1] if len(pats) > 1 else prog
+            seq = [(prog, dp), (other, op_), (prog, dp), ('x = = 1\n', '___ = ___\n'), (prog, dp), (other, dp), (other, op_), (prog, op_)]
+            explicit = [list(x) for x in seq[:rng.randrange(3, len(seq) + 1)]]
+        cases.append({'program': prog, 'patterns': pats, 'meta': meta, 'perturb': perturb, 'explicit': explicit})
     res, mism = c10.run_cases(ctx, cases, 'derived')
+    c10.explicit_pass(ctx, cases, res)
     for case, rec in zip(cases, res):
         if 'student' not in rec:
             continue
